@@ -12,12 +12,14 @@ for d in sorted(glob.glob(os.path.join(ROOT, "seeded", "S*"))):
     by = ", ".join(f"{p} ({'concrete input' if how == 'with-input' else 'no-failing-input-found'})" for p, how in r.get("caught_by", [])) or "—"
     def cell(x):
         return str(x).replace("|", "\\|").replace("\n", " ")
+    if "quickseed" in r.get("note", "") and "full check not re-run" in r.get("note", ""):
+        by += " — confirmed by the property's harness built against the patched tree (tools/quickseed.sh, implementation-side oracle); full check not re-run"
     rows.append(f"| {sid} | {m['property']} | {cell(m.get('summary',''))[:300]} | {cell(m.get('needs',''))[:260]} | {r.get('result','not run')} | {by} |")
 out = ["# Seeded breaking changes", "",
        "Each directory holds `patch.diff` (applies to /repo HEAD), `demo.rs` (an integration test that fails with the patch and passes without), `meta.json` (what it breaks, what it needs to manifest, what was run).",
        "All were written by fresh sub-agents that saw only the property text and a scratch worktree of the engine; every one compiles and passes the 84 existing tests. `tools/seedtest` applies each to /repo, runs the quick check(s) and restores /repo.",
        "", "| seed | property | change | needs | result | caught by |", "|---|---|---|---|---|---|"] + rows
 caught = sum(1 for s in res.values() if s["result"] == "caught")
-out += ["", f"{caught} of {len(rows)} seeded changes are reported as VIOLATION by the quick tier of the checks listed."]
+out += ["", f"{caught} of {len(rows)} seeded changes are reported as VIOLATION by the quick tier of the checks listed (rows marked tools/quickseed.sh: by the harness of that check run against the patched tree)."]
 open(os.path.join(ROOT, "seeded", "README.md"), "w").write("\n".join(out) + "\n")
 print(caught, len(rows))
